@@ -197,6 +197,11 @@ def _fitted(est, kind):
     return est.fit(d["X"], d.get("y")) if "y" in d else est.fit(d["X"])
 
 
+def _knr1():
+    from sklearn.neighbors import KNeighborsRegressor
+    return KNeighborsRegressor(n_neighbors=1)
+
+
 def catalogue():
     """name -> dict(kind, variants: {vname: factory}, fit: bool, strs: {param: alternatives})"""
     g = _imports()
@@ -285,7 +290,10 @@ def catalogue():
         "B": lambda: M.PermutationReciprocalTransformer(random_state=1, closest=True)})
     add("TransformedTargetRegressor2", "reg", {
         "A": lambda: M.TransformedTargetRegressor2(LinR(), "log"),
-        "B": lambda: M.TransformedTargetRegressor2(DTR(max_depth=2), M.FunctionReciprocalTransformer("exp"))},
+        "B": lambda: M.TransformedTargetRegressor2(DTR(max_depth=2), M.FunctionReciprocalTransformer("exp")),
+        # every accepted form of the transformer argument: alias string, function transformer instance, permutation instance
+        "C": lambda: M.TransformedTargetRegressor2(_knr1(), M.PermutationReciprocalTransformer(random_state=1)),   # 1-NN: every prediction is the code of a training target (closest=False refuses anything else)
+        "D": lambda: M.TransformedTargetRegressor2(LinR(), "permute")},
         strs={"transformer": ["log", "log1p"]})
     add("TransformedTargetClassifier2", "clf", {
         "A": lambda: M.TransformedTargetClassifier2(LogR(), "permute"),
